@@ -160,3 +160,311 @@ def mutate_bucket(rng, recs):
     else:             # trailing newline / leading junk
         recs.append(rng.choice([b"\n", b"\n\n", b"junk"]))
     return b"".join(recs)
+
+# ---------------------------------------------------------------- general API programs
+SIZES_SMALL = [0, 1, 2, 3, 7, 64, 100, 1000]
+SIZES_MED = [16383, 16384, 16385, 70000]
+SIZES_BIG = [1048575, 1048576, 1048577, 3 * 1048576 + 5]
+
+def rand_data(rng, big=0.0, med=0.1):
+    r = rng.random()
+    if r < big:
+        n = rng.choice(SIZES_BIG)
+        seed = rand_bytes(rng, 16)
+        return (seed * (n // 16 + 1))[:n]
+    if r < big + med:
+        n = rng.choice(SIZES_MED)
+        seed = rand_bytes(rng, 32)
+        return (seed * (n // 32 + 1))[:n]
+    return rand_bytes(rng, rng.choice(SIZES_SMALL))
+
+def chunkings(rng, data):
+    """split data into chunks: whole, single bytes (small data), decreasing, with empty chunks, random"""
+    n = len(data)
+    r = rng.random()
+    if n == 0:
+        return rng.choice([[], [b""], [b"", b""]])
+    if r < 0.25:
+        return [data]
+    if r < 0.4 and n <= 64:
+        return [data[i:i + 1] for i in range(n)]
+    cuts = sorted({rng.randrange(0, n + 1) for _ in range(rng.randrange(1, 5))})
+    parts, prev = [], 0
+    for c in cuts + [n]:
+        parts.append(data[prev:c]); prev = c
+    if rng.random() < 0.3:
+        parts.insert(rng.randrange(0, len(parts) + 1), b"")
+    if rng.random() < 0.2:
+        parts.sort(key=len, reverse=True)
+        # re-split so that concatenation is still data
+        out, pos = [], 0
+        for p in parts:
+            out.append(data[pos:pos + len(p)]); pos += len(p)
+        parts = out
+    return parts
+
+class ProgBuilder:
+    """tracks what the generator knows (keys written, addresses stored, handles) so that later ops are
+    mostly meaningful"""
+    def __init__(self, rng, flavour, hostile=0.15):
+        self.rng, self.flavour, self.hostile = rng, flavour, hostile
+        self.prog, self.keys, self.addrs, self.datas = [], [], [], []
+        self.nw = self.nr = self.nx = 0
+
+    def fl(self):
+        return pick_fl(self.rng, self.flavour)
+
+    def key(self, new=0.4):
+        if self.keys and self.rng.random() > new:
+            return self.rng.choice(self.keys)
+        k = rand_key(self.rng, self.hostile)
+        return k
+
+    def add(self, op):
+        self.prog.append(op)
+
+    def note_write(self, key, data, algo):
+        if key is not None and key not in self.keys:
+            self.keys.append(key)
+        self.addrs.append(hashes.sri(algo, data))
+        self.datas.append(data)
+
+    def data(self, big=0.0):
+        if self.datas and self.rng.random() < 0.3:
+            return self.rng.choice(self.datas)          # re-write equal data (dedup, C16)
+        return rand_data(self.rng, big=big)
+
+    def op_write(self, big=0.0):
+        rng = self.rng
+        key, data, algo = self.key(), self.data(big), rng.choice(hashes.ALGOS)
+        op = {"op": "write", "fl": self.fl(), "key": kx(key), "data": data.hex()}
+        if algo != "sha256" or rng.random() < 0.5:
+            op["algo"] = algo
+        else:
+            algo = "sha256"
+        self.add(op); self.note_write(key, data, algo)
+
+    def op_write_hash(self, big=0.0):
+        rng = self.rng
+        data, algo = self.data(big), rng.choice(hashes.ALGOS)
+        self.add({"op": "write_hash", "fl": self.fl(), "data": data.hex(), "algo": algo})
+        self.note_write(None, data, algo)
+
+    def op_stream(self, big=0.0, size_mode=None, sri_mode=None, end="commit", keyed=None):
+        rng = self.rng
+        data = self.data(big)
+        algo = rng.choice(hashes.ALGOS)
+        keyed = rng.random() < 0.7 if keyed is None else keyed
+        key = self.key() if keyed else None
+        self.nw += 1
+        w = self.nw
+        op = {"op": "open", "fl": self.fl(), "w": w, "algo": algo}
+        if key is not None:
+            op["key"] = kx(key)
+        size_mode = size_mode or rng.choice(["none", "none", "ok", "ok", "less", "more"])
+        if size_mode == "ok": op["size"] = len(data)
+        elif size_mode == "less": op["size"] = max(0, len(data) - rng.choice([1, 1, 2, 100]))
+        elif size_mode == "more": op["size"] = len(data) + rng.choice([1, 1, 5, 1000, 2000000])
+        if size_mode == "less" and op["size"] == len(data): size_mode = "ok"
+        sri_mode = sri_mode or rng.choice(["none", "none", "none", "ok", "wrong", "other", "multi_ok", "multi_wrong"])
+        other = rng.choice([a for a in hashes.ALGOS if a != algo])
+        if sri_mode == "ok": op["sri"] = hashes.sri(algo, data)
+        elif sri_mode == "wrong": op["sri"] = hashes.sri(algo, data + b"!")
+        elif sri_mode == "other": op["sri"] = hashes.sri(other, data)
+        elif sri_mode == "multi_ok": op["sri"] = hashes.sri(other, data) + " " + hashes.sri(algo, data)
+        elif sri_mode == "multi_wrong": op["sri"] = hashes.sri(other, data) + " " + hashes.sri(algo, data + b"?")
+        if rng.random() < 0.3: op["time"] = str(rng.choice([0, 5, 2**64 + 3, 2**119 + 1]))
+        if rng.random() < 0.3: op["meta"] = rand_meta(rng)
+        if rng.random() < 0.2: op["raw"] = rand_bytes(rng, rng.randrange(0, 6)).hex()
+        self.add(op)
+        chunks = chunkings(rng, data)
+        ncut = len(chunks)
+        if end == "drop" and rng.random() < 0.6:
+            ncut = rng.randrange(0, len(chunks) + 1)
+        for c in chunks[:ncut]:
+            self.add({"op": "wchunk", "w": w, "data": c.hex(), "mode": rng.choice(["write_all", "write"])})
+        if end == "commit":
+            self.add({"op": "commit", "w": w})
+            good = size_mode in ("none", "ok") and sri_mode in ("none", "ok", "multi_ok")
+            # the content is published under its address even when the commit is rejected afterwards
+            self.addrs.append(hashes.sri(algo, data)); self.datas.append(data)
+            if good and key is not None and key not in self.keys:
+                self.keys.append(key)
+        elif end == "drop":
+            self.add({"op": "drop", "w": w})
+        # "leave": handle stays open
+
+    def some_key(self):
+        return self.rng.choice(self.keys) if self.keys and self.rng.random() < 0.85 else rand_key(self.rng, self.hostile)
+
+    def some_addr(self):
+        if self.addrs and self.rng.random() < 0.85:
+            return self.rng.choice(self.addrs)
+        return hashes.sri(self.rng.choice(hashes.ALGOS), rand_bytes(self.rng, 3))
+
+    def op_lookup(self):
+        r = self.rng.random()
+        if r < 0.35:
+            self.add({"op": "read", "fl": self.fl(), "key": kx(self.some_key())})
+        elif r < 0.55:
+            self.add({"op": "read_hash", "fl": self.fl(), "sri": self.some_addr()})
+        elif r < 0.8:
+            self.add({"op": self.rng.choice(["metadata", "find"]), "fl": self.fl(), "key": kx(self.some_key())})
+        elif r < 0.9:
+            self.add({"op": "exists", "fl": self.fl(), "sri": self.some_addr()})
+        else:
+            self.add({"op": "list"})
+
+    def op_reader(self):
+        rng = self.rng
+        self.nr += 1
+        r = self.nr
+        if rng.random() < 0.5:
+            self.add({"op": "ropen", "fl": self.fl(), "r": r, "key": kx(self.some_key())})
+        else:
+            self.add({"op": "ropen_hash", "fl": self.fl(), "r": r, "sri": self.some_addr()})
+        for _ in range(rng.randrange(0, 4)):
+            self.add({"op": "rchunk", "r": r, "n": rng.choice([1, 2, 5, 1024, 16384, 100000])})
+        if rng.random() < 0.7:
+            self.add({"op": "rall", "r": r})
+        self.add({"op": rng.choice(["rcheck", "rcheck", "rcheck", "rdrop"]), "r": r})
+
+    def op_extract(self, kinds=("copy", "hard_link", "reflink")):
+        rng = self.rng
+        kind = rng.choice(kinds)
+        by = rng.choice(["key", "hash"])
+        checked = rng.random() < 0.6
+        fl = self.fl()
+        if fl == "async":
+            if kind == "hard_link" and not (by == "key" and checked):
+                fl = "sync"
+            if kind == "reflink" and by == "hash" and not checked:
+                fl = "sync"
+        self.nx += 1
+        to = f"out{self.nx}" if rng.random() < 0.8 or self.nx < 2 else f"out{rng.randrange(1, self.nx)}"
+        op = {"op": kind, "fl": fl, "by": by, "checked": checked, "to": to}
+        if by == "key": op["key"] = kx(self.some_key())
+        else: op["sri"] = self.some_addr()
+        self.add(op)
+
+    def op_remove(self, allow_clear=0.03):
+        rng = self.rng
+        r = rng.random()
+        if r < allow_clear:
+            self.add({"op": "clear", "fl": self.fl()}); self.keys, self.addrs = [], []
+        elif r < 0.45:
+            self.add({"op": rng.choice(["remove", "delete"]), "fl": self.fl(), "key": kx(self.some_key())})
+        elif r < 0.6:
+            self.add({"op": "remove_opts", "fl": self.fl(), "key": kx(self.some_key()), "fully": False})
+        elif r < 0.8:
+            self.add({"op": "remove_hash", "fl": self.fl(), "sri": self.some_addr()})
+        else:
+            self.add({"op": "remove_opts", "fl": self.fl(), "key": kx(self.some_key()), "fully": True})
+
+    def op_damage_content(self):
+        """damage one stored content file (C01 / C18 classes)"""
+        rng = self.rng
+        if not self.addrs:
+            return
+        i = rng.randrange(0, len(self.addrs))
+        sri, data = self.addrs[i], self.datas[i]
+        loc = ref.loc_c(ref.content_rel(sri))
+        r = rng.random()
+        if r < 0.3 and len(data) > 0:
+            b = bytearray(data); p = rng.randrange(0, len(b)); b[p] ^= 1 << rng.randrange(0, 8); new = bytes(b)
+        elif r < 0.45:
+            new = data[: rng.randrange(0, len(data))] if data else b"x"
+        elif r < 0.55:
+            new = data + rand_bytes(rng, rng.randrange(1, 4))
+        elif r < 0.65:
+            new = b""
+            if data == b"": new = b"\x00"
+        elif r < 0.8 and len(self.datas) > 1:
+            new = rng.choice(self.datas)
+        elif r < 0.9:
+            self.add({"op": "damage", "kind": "del", "loc": loc}); return
+        else:
+            # symlink substitution: a file of the caller with other bytes
+            name = f"sub{len(self.prog)}"
+            self.add({"op": "damage", "kind": "set", "loc": "e:" + name, "data": (data + b"#").hex()})
+            self.add({"op": "damage", "kind": "symlink", "loc": loc, "target": "a:" + name}); return
+        self.add({"op": "damage", "kind": "set", "loc": loc, "data": new.hex()})
+
+    def final_lookups(self):
+        for k in self.keys[:8]:
+            self.add({"op": "metadata", "fl": self.fl(), "key": kx(k)})
+            self.add({"op": "read", "fl": self.fl(), "key": kx(k)})
+        for a in self.addrs[-4:]:
+            self.add({"op": "read_hash", "fl": self.fl(), "sri": a})
+        self.add({"op": "list"})
+
+def api_program(rng, flavour, n, weights, big=0.0, hostile=0.15, stream_kw=None):
+    b = ProgBuilder(rng, flavour, hostile)
+    names = list(weights)
+    ws = [weights[k] for k in names]
+    for _ in range(n):
+        k = rng.choices(names, ws)[0]
+        if k == "write": b.op_write(big)
+        elif k == "write_hash": b.op_write_hash(big)
+        elif k == "stream": b.op_stream(big, **(stream_kw or {}))
+        elif k == "stream_drop": b.op_stream(big, end="drop")
+        elif k == "stream_leave": b.op_stream(big, end="leave")
+        elif k == "lookup": b.op_lookup()
+        elif k == "reader": b.op_reader()
+        elif k == "extract": b.op_extract()
+        elif k == "remove": b.op_remove()
+        elif k == "damage_content": b.op_damage_content()
+        elif k == "insert": b.add(rand_insert(rng, b.key(), b.fl()))
+    b.final_lookups()
+    return b.prog
+
+# ---------------------------------------------------------------- C05: foreign keys sharing a bucket file
+def foreign_bucket_programs(rng, flavour, n):
+    """the bucket of key K is pre-filled (reference writer) with an interleaving of records of K and of foreign
+    keys — as if their SHA-1 collided — including foreign tombstones after K's last write; then lookups and
+    further API writes/removals of K"""
+    for _ in range(n):
+        K = rng.choice(SMALL_KEYS + ["ék"])
+        foreign = ["F1", "F2", K + "x", "x" + K]
+        recs = []
+        for i in range(rng.randrange(2, 9)):
+            who = K if rng.random() < 0.45 else rng.choice(foreign)
+            if rng.random() < 0.35:
+                recs.append(record(who, None, time=i))
+            else:
+                recs.append(record(who, rng.choice(FAKE_SRIS), time=i, size=rng.choice([1, 22, 333333]), meta=rng.choice(METAS)))
+        loc = ref.loc_c(ref.bucket_rel(K.encode()))
+        prog = [{"op": "damage", "kind": "mkdir", "loc": loc.rsplit("/", 1)[0]},
+                {"op": "damage", "kind": "set", "loc": loc, "data": b"".join(recs).hex()}]
+        prog += [{"op": "find", "fl": fl, "key": kx(K)} for fl in FLS[flavour]]
+        prog += [{"op": "find", "fl": pick_fl(rng, flavour), "key": kx(f)} for f in foreign[:2]]
+        for _ in range(rng.randrange(1, 4)):
+            r = rng.random()
+            if r < 0.4:
+                prog.append(rand_insert(rng, K, pick_fl(rng, flavour)))
+            elif r < 0.7:
+                prog.append({"op": "remove", "fl": pick_fl(rng, flavour), "key": kx(K)})
+            else:
+                prog.append({"op": "write", "fl": pick_fl(rng, flavour), "key": kx(K), "data": rand_bytes(rng, 5).hex()})
+            prog += [{"op": "find", "fl": fl, "key": kx(K)} for fl in FLS[flavour]]
+        prog.append({"op": "read", "fl": pick_fl(rng, flavour), "key": kx(K)})
+        yield prog
+
+# ---------------------------------------------------------------- C06: every single-bit flip of a region
+def bitflip_programs(rng, flavour, n_hist, region="head"):
+    """small buckets; every single-bit flip of a region of the newest record (head = newline + checksum + tab +
+    first JSON bytes; all = the whole record) and of a tombstone; lookups through both API families + listing"""
+    for _ in range(n_hist):
+        K = rng.choice(SMALL_KEYS + ["k\U0001F600"])
+        r1 = record(K, rng.choice(FAKE_SRIS), time=1, size=11)
+        last = record(K, None, time=2) if rng.random() < 0.4 else record(K, rng.choice(FAKE_SRIS[1:]), time=2, size=22, meta=rng.choice(METAS))
+        loc = ref.loc_c(ref.bucket_rel(K.encode()))
+        span = range(0, min(len(last), 80)) if region == "head" else range(0, len(last))
+        for p in span:
+            for bit in range(8):
+                b = bytearray(last); b[p] ^= 1 << bit
+                prog = [{"op": "damage", "kind": "mkdir", "loc": loc.rsplit("/", 1)[0]},
+                        {"op": "damage", "kind": "set", "loc": loc, "data": (r1 + bytes(b)).hex()}]
+                prog += [{"op": "find", "fl": fl, "key": kx(K)} for fl in FLS[flavour]]
+                prog.append({"op": "list"})
+                yield prog
